@@ -436,6 +436,10 @@ func (e *Exec) extractModel(cond *Term) []ReplayVal {
 	}
 	r, vals := e.sol.Check(s.String(), names)
 	if r != "sat" {
+		e.notes = append(e.notes, "model extraction: first query returned "+r)
+		if p := os.Getenv("GOSYMX_DUMP"); p != "" {
+			os.WriteFile(p, []byte(s.String()), 0o644)
+		}
 		return nil
 	}
 	// pin every scalar input to its first-model value, then fetch array contents
@@ -474,6 +478,7 @@ func (e *Exec) extractModel(cond *Term) []ReplayVal {
 	}
 	r, vals = e.sol.Check(s.String(), append(append([]string{}, names...), sel...))
 	if r != "sat" {
+		e.notes = append(e.notes, "model extraction: second query returned "+r)
 		return nil
 	}
 	get := func(t *Term) (uint64, []byte) {
